@@ -57,6 +57,13 @@ func checkC17(c c17Case, o *Obs) error {
 		if v, ok := alphabet.MakeCodonDict()[c.Arg]; ok != (want != 'X') || (ok && v != string(want)) {
 			return fmt.Errorf("MakeCodonDict[%q] = %q,%v; want present=%v value %q", c.Arg, v, ok, want != 'X', string(want))
 		}
+	case "variants-codons":
+		// translation as observed through `variants`: every IUPAC codon as the query codon of a small gene, on either
+		// strand, in either annotation format; each row against the coordinate-level oracle of C04 (an amino-acid record
+		// exactly when the every-expansion rule gives one product that differs from the reference's, otherwise its SNPs)
+		o.NonTrivial()
+		o.Label("variants-codon-sweep")
+		return checkC17ThroughVariants(c.Arg, o)
 	case "char":
 		o.NonTrivial()
 		ch := c.Arg[0]
@@ -282,6 +289,15 @@ func TestC17(t *testing.T) {
 				return
 			}
 		}
+		for _, refCodon := range []string{"AAA", "GGG", "CTT"} {
+			for _, strand := range []string{"+", "-"} {
+				for _, format := range []string{"gb", "gff"} {
+					if !yield(c17Case{Kind: "variants-codons", Arg: refCodon + strand + format}) {
+						return
+					}
+				}
+			}
+		}
 	}, checkC17)
 	stats.Extra["exhaustive_cases"] = n
 	stats.Extra["exhaustive"] = true
@@ -289,4 +305,45 @@ func TestC17(t *testing.T) {
 		return
 	}
 	runProp(t, "C17", genC17, checkC17)
+}
+
+// checkC17ThroughVariants: arg = reference codon + strand + annotation format, e.g. "AAA+gff". One alignment holds the
+// reference and 3375 queries, query i carrying the i-th IUPAC codon in place of the reference codon (second codon of the
+// gene ATG <codon> GCT TAA).
+func checkC17ThroughVariants(arg string, o *Obs) error {
+	refCodon, strand, format := arg[:3], arg[3:4], arg[4:]
+	gene := "ATG" + refCodon + "GCT" + "TAA"
+	place := func(g string) string { // the gene as it sits in the genome
+		if strand == "+" {
+			return g
+		}
+		b := []byte(g)
+		for i, j := 0, len(b)-1; i < j; i, j = i+1, j-1 {
+			b[i], b[j] = b[j], b[i]
+		}
+		for i := range b {
+			b[i] = complementBase(b[i])
+		}
+		return string(b)
+	}
+	ref := "CC" + place(gene) + "CC"
+	f := Feat{Name: "g", Strand: 1, Segs: []Seg{{3, 2 + len(gene)}}, CodonStart: 1, GFFType: "CDS"}
+	if strand == "-" {
+		f.Strand = -1
+	}
+	a := Anno{RefName: "ref", Ref: ref, Feats: []Feat{f}}
+	m := MsaCase{RefID: "ref", RefAt: 0, Layout: plainLayout()}
+	m.Rows = append(m.Rows, FaRec{ID: "ref", Seq: ref})
+	n := 0
+	for i := 0; i < 15; i++ {
+		for j := 0; j < 15; j++ {
+			for k := 0; k < 15; k++ {
+				q := string([]byte{iupac15[i], iupac15[j], iupac15[k]})
+				m.Rows = append(m.Rows, FaRec{ID: fmt.Sprintf("q%d_%s", n, q), Seq: "CC" + place("ATG"+q+"GCT"+"TAA") + "CC"})
+				n++
+			}
+		}
+	}
+	c := varCase{Anno: a, Format: format, GFF: gffOpts{SequenceRegion: true, WithFasta: true}, Form: "msa", Msa: &m, Threads: 2}
+	return checkVariantsAgainstModel(c, &Obs{})
 }
